@@ -434,12 +434,12 @@ bool DependencyScan::RecomputeNodeDirty(Node* node, std::vector<Node*>* stack,
 
   bool dirty = false;
   edge->outputs_ready_ = true;
-  edge->deps_missing_ = false;
 
   const bool edge_deps_loaded = edge->deps_loaded_;
   if (!edge->deps_loaded_) {
     // This is our first encounter with this edge.
     edge->deps_loaded_ = true;
+    edge->deps_missing_ = false;
 
     // If there is a pending dyndep file, visit it now:
     // * If the dyndep file is ready then load it now to get any
@@ -521,6 +521,10 @@ bool DependencyScan::RecomputeNodeDirty(Node* node, std::vector<Node*>* stack,
       else
         dirty = edge->deps_missing_ = true;
     }
+  } else if (edge->deps_missing_) {
+    // The deps are loaded on the first visit only; when the edge is visited
+    // again (after a dyndep file was loaded) they are still missing.
+    dirty = true;
   }
 
   // Finally, visit each output and update their dirty state if necessary.
